@@ -559,6 +559,12 @@ def make_classifier(prop):
         if prop != "C04" or k2 is None or not o.ok_reply:
             return None
         e = extras(o)
+        # the recorded defect is in the algorithm, so the MODEL shows it too: a failure is inside K2's
+        # scope only if implementation and model agree on this input (flag and pair set) and the
+        # model fails the same clause.  A new defect that merely happens to show on a cyclic graph
+        # (implementation != model) is a violation, not a known finding.
+        if not o.corr or e.get("model_failed") != ["c04_not_embedding"]:
+            return None
         if e.get("failed") == ["c04_not_embedding"] and (e.get("host_cycle") == "1" or e.get("pattern_cycle") == "1"):
             return k2
         return None
